@@ -34,7 +34,7 @@ type Fault struct {
 var masterFaults = []string{"fin", "rst", "short", "outofseq", "err", "eof", "invalid", "unsupported", "undecodable"}
 
 // Replica-side fault kinds.
-var clientFaults = []string{"cancel_out", "cancel_in", "cancel_busy", "cancel_log", "handler_err", "handler_err_cancel", "mapper_err", "mapper_cols"}
+var clientFaults = []string{"cancel_out", "cancel_in", "cancel_busy", "deadline_in", "cancel_log", "handler_err", "handler_err_cancel", "mapper_err", "mapper_cols"}
 
 // Connect-phase fault kinds.
 var connectFaults = []string{"refuse", "err_handshake", "err_query", "cancel_handshake"}
@@ -259,7 +259,7 @@ func drawFault(rt *rapid.T, kinds []string, nsteps, ntx int) Fault {
 		}
 	case f.Kind == "cancel_out":
 		f.At = rapid.IntRange(0, nsteps).Draw(rt, "cancel_at")
-	case f.Kind == "cancel_in" || f.Kind == "cancel_busy" || f.Kind == "handler_err" || f.Kind == "handler_err_cancel":
+	case f.Kind == "cancel_in" || f.Kind == "cancel_busy" || f.Kind == "handler_err" || f.Kind == "handler_err_cancel" || f.Kind == "deadline_in" || f.Kind == "handler_panic":
 		f.At = rapid.IntRange(1, max(1, ntx)).Draw(rt, "call_at")
 		f.Sub = rapid.IntRange(0, len(handlerErrors)-1).Draw(rt, "handler_err_value")
 	case f.Kind == "cancel_log":
@@ -323,6 +323,20 @@ func faultAttempt(ss *session, l *hist.Layout, spec AttemptSpec) (attempt, func(
 			n++
 			if n == f.At {
 				cancel()
+			}
+			return nil
+		}
+	case f.Kind == "deadline_in":
+		// the caller's context carries a deadline, which passes while the At-th handler call is in progress;
+		// the handler then finishes and ACCEPTS the transaction
+		ctx, cancel := context.WithTimeout(context.Background(), 15*time.Millisecond)
+		at.ctx = ctx
+		cleanup = cancel
+		n := 0
+		at.handler = func(tx *gobinlog.Transaction, st *attemptState) error {
+			n++
+			if n == f.At {
+				<-ctx.Done()
 			}
 			return nil
 		}
